@@ -137,8 +137,8 @@ Proof. exact rule_keeps_slot_lemma. Qed.
 (* abi_terminates: the `seen` cut makes abi_type_for total -- with fuel = number of classes + 1 the out-of-fuel
    value is never returned, whatever the class table (cyclic classes end in InfiniteType) *)
 Theorem abi_terminates : forall env dom, (forall v, ty_data env v <> None -> In v dom) ->
-  forall v, abi_type_for abi_nested_add env (S (length dom)) v <> Err EOutOfFuel.
-Proof. exact (abi_terminates_gen abi_nested_add gen_add_no_err). Qed.
+  forall v, abi_type_for abi_nested_add abi_nested_fit env (S (length dom)) v <> Err EOutOfFuel.
+Proof. exact (abi_terminates_gen abi_nested_add abi_nested_fit gen_add_no_err). Qed.
 
 (* abi_no_panic: if every variable with data has an expression and the expressions only mention such variables
    (what registration, the rules and `merge`'s allocate_ty_var maintain) abi_type_for and the layout loop never
@@ -147,11 +147,11 @@ Theorem abi_no_panic : forall env dom,
   (forall v, In v dom -> has_expr env v = true) ->
   (forall v e, In v dom -> type_of env v = Ok e -> forall w, In w (te_vars e) -> In w dom) ->
   forall fuel vals layout, (forall x, In x vals -> In (tv_of x) dom) ->
-  forall p, build_layout abi_nested_add env fuel vals layout <> Panic p.
-Proof. intros env dom H1 H2 fuel vals layout H3. exact (build_layout_no_panic abi_nested_add gen_add_total env dom H1 H2 fuel vals layout H3). Qed.
+  forall p, build_layout abi_nested_add abi_nested_fit env fuel vals layout <> Panic p.
+Proof. intros env dom H1 H2 fuel vals layout H3. exact (build_layout_no_panic abi_nested_add abi_nested_fit gen_add_total env dom H1 H2 fuel vals layout H3). Qed.
 
 (* the pinned text `ofs + offset` panics on a closed class table (witness behind the repair in 66cf5b5) *)
-Theorem abi_no_panic_pinned_refuted : exists cls fuel v, abi_type_for (usize_add 9103) (env_cls cls) fuel v = Panic 9103.
+Theorem abi_no_panic_pinned_refuted : exists cls fuel v, abi_type_for (usize_add 9103) false (env_cls cls) fuel v = Panic 9103.
 Proof. exists overflow_witness, 4%nat, 1. exact overflow_witness_panics. Qed.
 
 (* abi_packed_offsets (C12): under the span discipline -- a width `wd` for every class reachable through Packed
@@ -159,39 +159,85 @@ Proof. exists overflow_witness, 4%nat, 1. exact overflow_witness_panics. Qed.
    class, and the class of a span's type fits INTO THE SPAN; sized words fit their class -- every reported row
    starts inside the slot and ends inside it when its width is known.  Nested packed offsets accumulate. *)
 Theorem abi_packed_offsets : forall env wd v0, discipline env wd v0 ->
-  forall fuel index a, abi_type_for abi_nested_add env fuel v0 = Ok a ->
+  forall fuel index a, abi_type_for abi_nested_add abi_nested_fit env fuel v0 = Ok a ->
   forall e, In e (rows_of index a) ->
     fst (fst e) = index /\ snd (fst e) < WORD_SIZE_BITS /\
     match aty_width (snd e) with Some w => snd (fst e) + w <= WORD_SIZE_BITS | None => True end.
-Proof. exact (abi_packed_offsets_gen abi_nested_add gen_add_exact). Qed.
+Proof. exact (abi_packed_offsets_gen abi_nested_add abi_nested_fit gen_add_exact). Qed.
 
 (* the executable discipline check used by the suites implies the discipline *)
 Theorem wd_hyp_sound : forall env cls v0, agrees env cls -> wd_hyp cls v0 = true -> discipline env (wd_min cls) v0.
 Proof. exact wd_hyp_sound_lemma. Qed.
 
-(* C12_nested_refuted (finding C12:K-nested): every individual span ends inside the slot, the discipline fails
-   (a 128-bit span whose type was equated with a full-width class), and a row is reported at bit 256 *)
-Theorem C12_nested_refuted : exists cls v0 fuel ty,
+(* abi_rows_in_slot (C12, repaired text: a nested encoding is flattened only when all its elements stay inside the
+   word its span starts in).  Hypotheses ONLY about the queried class itself, nothing about nested classes:
+     - if it is a Packed class, every span starts inside the slot (offset < 256) and a span whose own type is a
+       sized word ends inside it (offset + width <= 256);
+     - if it is a sized word, the width is at most 256.
+   Then every reported row starts inside the slot and known widths end inside it -- for struct and non-struct
+   classes alike.  (The hypotheses are what the passes' in-slot theorems give for lifted sub-words / packed spans,
+   preserved by Packed x Packed re-partitioning whose new boundaries lie among the old ones; that words of
+   different widths never merge into a wider sized word is merge's Word x Word arm.) *)
+Theorem abi_rows_in_slot : forall env fuel v0 index a,
+  (forall ts b s, type_of env v0 = Ok (Packed ts b) -> In s ts ->
+     s_off s < 256 /\ forall w u, type_of env (s_typ s) = Ok (Word (Some w) u) -> s_off s + w <= 256) ->
+  (forall w u, type_of env v0 = Ok (Word (Some w) u) -> w <= 256) ->
+  abi_type_for abi_nested_add abi_nested_fit env fuel v0 = Ok a ->
+  forall e, In e (rows_of index a) ->
+    fst (fst e) = index /\ snd (fst e) < WORD_SIZE_BITS /\
+    match aty_width (snd e) with Some w => snd (fst e) + w <= WORD_SIZE_BITS | None => True end.
+Proof. exact (abi_rows_in_slot_gen abi_nested_add gen_add_exact). Qed.
+
+(* abi_nested_in_word (repaired text, ALL class tables, no discipline): every pair a Packed class hands to its
+   parent sits at the start of one of its own spans or -- when it comes out of a nested encoding -- d bits after
+   it and inside the 256-bit word that span starts in, with its known width.  For struct encodings (mapping values,
+   is_struct) this is what holds: rows stay inside the word of their struct member. *)
+Theorem abi_nested_in_word : forall env fuel v seen ts b ps sn,
+  type_of env v = Ok (Packed ts b) -> (forall s, In s ts -> s_off s < two64) ->
+  abi_impl abi_nested_add abi_nested_fit env fuel v seen PPacked = Ok (APacked ps, sn) ->
+  Forall (fun p => exists s, In s ts /\ origin s p) ps.
+Proof. exact (abi_nested_in_word_gen abi_nested_add gen_add_exact). Qed.
+
+Theorem origin_in_same_word : forall s p, origin s p -> snd p / 256 = s_off s / 256.
+Proof. exact origin_same_word. Qed.
+
+(* the width function of the guard (AbiType::bit_width, table read from src/tc/abi.rs) implies the width the
+   in-slot predicates use *)
+Theorem bit_width_fits : forall a start,
+  match bit_width a with None => true | Some w => usize_sat_add start w <=? WORD_SIZE_BITS end = true ->
+  match aty_width a with Some w => start + w <= 256 | None => True end.
+Proof. exact fits_width. Qed.
+
+(* C12_nested_pinned_refuted (former finding C12:K-nested): with the PINNED text (no guard) every individual span
+   ends inside the slot, the discipline fails (a 128-bit span whose type was equated with a full-width class),
+   and a row is reported at bit 256 ... *)
+Theorem C12_nested_pinned_refuted : exists cls v0 fuel ty,
   single_spans_ok cls v0 = true /\ known_nested_spans cls v0 = true /\
-  abi_type_for abi_nested_add (env_cls cls) fuel v0 = Ok (APacked [(AT "Any" [] [], 128); (ty, 256)]).
+  abi_type_for abi_nested_add false (env_cls cls) fuel v0 = Ok (APacked [(AT "Any" [] [], 128); (ty, 256)]).
 Proof.
-  exists nested_witness, 1, 5%nat. destruct nested_witness_facts as (A & _ & B & ty & C). exists ty. auto.
+  exists nested_witness, 1, 5%nat. destruct nested_witness_pinned_facts as (A & _ & B & ty & C). exists ty. auto.
 Qed.
+
+(* ... and the same classes under the repaired text: the span keeps one row (Any, 128), everything inside the slot *)
+Theorem C12_nested_repaired :
+  abi_type_for abi_nested_add abi_nested_fit (env_cls nested_witness) 5 1
+  = Ok (APacked [(AT "Bytes" [1; 16] [], 0); (AT "Any" [] [], 128)]).
+Proof. exact nested_witness_repaired. Qed.
 
 (* layout_row_per_const_slot + index_full_width (C06): the loop keeps earlier rows and adds, for every constant
    storage slot among the values, at least one row whose index is the 256-bit key itself *)
 Theorem layout_row_per_const_slot : forall env fuel vals layout L,
-  build_layout abi_nested_add env fuel vals layout = Ok L ->
+  build_layout abi_nested_add abi_nested_fit env fuel vals layout = Ok L ->
   (forall e, In e layout -> In e L) /\
   (forall x c, In x vals -> const_slot_key x = Some c -> exists off ty, In (c, off, ty) L).
-Proof. exact (layout_row_per_const_slot_gen abi_nested_add). Qed.
+Proof. exact (layout_row_per_const_slot_gen abi_nested_add abi_nested_fit). Qed.
 
 (* the chain for C06: a constant slot in any registered value gets a row, whatever unification produced (env),
    provided the layout loop sees at least the values that were there after inference *)
 Theorem const_slot_row : forall vs c env fuel L, (exists v, In v vs /\ In (slot_sv c) (subterms v)) ->
   exists st', infer_all default_rule_set (snd (assign_vars vs)) = Ok st' /\
     (forall vals, (forall x, In x (values st') -> In x vals) ->
-       build_layout abi_nested_add env fuel vals [] = Ok L -> exists off ty, In (c, off, ty) L).
+       build_layout abi_nested_add abi_nested_fit env fuel vals [] = Ok L -> exists off ty, In (c, off, ty) L).
 Proof. exact const_slot_row_lemma. Qed.
 
 (* hypotheses are satisfiable: a two-level packed slot (address at bit 0, a 64-bit class holding two 32-bit
@@ -200,7 +246,7 @@ Example discipline_met :
   let cls := [(1, Packed [mk_span 3 0 160; mk_span 5 160 64] false); (3, Word (Some 160) UAddress);
               (5, Packed [mk_span 7 0 32; mk_span 9 32 32] false); (7, Word (Some 32) UBytes); (9, Word (Some 32) UNumeric)] in
   wd_hyp cls 1 = true /\
-  abi_type_for abi_nested_add (env_cls cls) 6 1 =
+  abi_type_for abi_nested_add abi_nested_fit (env_cls cls) 6 1 =
     Ok (APacked [(AT "Address" [] [], 0); (AT "Bytes" [1; 4] [], 160); (AT "Number" [1; 32] [], 192)]).
 Proof. vm_compute. split; reflexivity. Qed.
 
@@ -222,28 +268,33 @@ Print Assumptions abi_no_panic.
 Print Assumptions abi_no_panic_pinned_refuted.
 Print Assumptions abi_packed_offsets.
 Print Assumptions wd_hyp_sound.
-Print Assumptions C12_nested_refuted.
+Print Assumptions abi_rows_in_slot.
+Print Assumptions abi_nested_in_word.
+Print Assumptions origin_in_same_word.
+Print Assumptions bit_width_fits.
+Print Assumptions C12_nested_pinned_refuted.
+Print Assumptions C12_nested_repaired.
 Print Assumptions layout_row_per_const_slot.
 Print Assumptions const_slot_row.
 
 (* ====================================================================== shapes (support for C04) *)
-Theorem abi_word_shape : forall nested_add env f v seen par width usage t,
+Theorem abi_word_shape : forall nested_add fit env f v seen par width usage t,
   type_of env v = Ok (Word width usage) -> has_expr env v = true -> word_abi (Word width usage) width usage = Ok t ->
-  abi_impl nested_add env (S f) v seen par = Ok (AType t, Word width usage :: seen).
+  abi_impl nested_add fit env (S f) v seen par = Ok (AType t, Word width usage :: seen).
 Proof. exact abi_word_reported. Qed.
 
-Theorem abi_mapping_shape : forall nested_add env f v seen par k val,
+Theorem abi_mapping_shape : forall nested_add fit env f v seen par k val,
   type_of env v = Ok (Mapping k val) -> has_expr env v = true -> existsb (te_eqb (Mapping k val)) seen = false ->
-  abi_impl nested_add env (S f) v seen par =
-    sub_type (fun v0 sn => abi_impl nested_add env f v0 sn POther) k (Mapping k val :: seen) (fun ktp sn1 =>
-    sub_type (fun v0 sn => abi_impl nested_add env f v0 sn POther) val sn1 (fun vtp sn2 =>
+  abi_impl nested_add fit env (S f) v seen par =
+    sub_type (fun v0 sn => abi_impl nested_add fit env f v0 sn POther) k (Mapping k val :: seen) (fun ktp sn1 =>
+    sub_type (fun v0 sn => abi_impl nested_add fit env f v0 sn POther) val sn1 (fun vtp sn2 =>
       Ok (AType (AT "Mapping" [] [ktp; vtp]), sn2))).
 Proof. exact abi_mapping_reported. Qed.
 
-Theorem abi_dynarray_shape : forall nested_add env f v seen par el,
+Theorem abi_dynarray_shape : forall nested_add fit env f v seen par el,
   type_of env v = Ok (DynamicArray el) -> has_expr env v = true -> existsb (te_eqb (DynamicArray el)) seen = false ->
-  abi_impl nested_add env (S f) v seen par =
-    sub_type (fun v0 sn => abi_impl nested_add env f v0 sn POther) el (DynamicArray el :: seen) (fun tp sn =>
+  abi_impl nested_add fit env (S f) v seen par =
+    sub_type (fun v0 sn => abi_impl nested_add fit env f v0 sn POther) el (DynamicArray el :: seen) (fun tp sn =>
       Ok (AType (AT "DynArray" [] [tp]), sn)).
 Proof. exact abi_dynarray_reported. Qed.
 
